@@ -450,10 +450,8 @@ def odd_name_packets():
         data = tlv(6, tlv(7, g(b'a') + c) + tlv(0x14, b'') + tlv(0x15, b'odd') + tlv(0x16, tlv(0x1b, b'\x00'))
                    + tlv(0x17, bytes(32)))
         O['data-odd:' + tag] = data
-        if tag == 'implicit-digest-len0':
-            # kept out of the stream (reported): a Nack for /a/<ImplicitSha256Digest of length 0> is taken for a Nack of
-            # the pending Interest /a - _on_nack strips the digest component and b'' there also means 'no digest'
-            continue
+        # (a Nack for /a/<Type-1 component of length 0> used to be taken for a Nack of the pending Interest /a: _on_nack
+        # stripped the component and b'' there also means 'no digest' - fixed in /repo: only a 32-byte value is a digest)
         O['nack-odd:' + tag] = tlv(LP, tlv(0x320, tlv(0x321, b'\x96')) + tlv(0x50, tlv(5, tlv(7, g(b'a') + c) + nonce)))
     c0 = odd_components()
     for k in (0, 5, 14, 20):
